@@ -85,7 +85,7 @@ def Reg.listOrdered (r : Reg) : List (Key × Nat) :=
   r.order.filterMap fun k => (lookup r.map k).map fun v => (k, v)
 
 /-- The invariant tying the order slice to the map. -/
-def Inv (r : Reg) : Prop := keys r.map = r.order ∧ r.order.Nodup
+def RegInv (r : Reg) : Prop := keys r.map = r.order ∧ r.order.Nodup
 
 /-! ### the five registries of one server and the operations of the public API / the request paths -/
 
@@ -208,6 +208,12 @@ def noUnreg (k : Kind) : List Op → Bool
   | .unreg k' _ :: os => k' != k && noUnreg k os
   | _ :: os => noUnreg k os
 
+/-- Does the operation (try to) change the binding of name `n` in registry `k`? -/
+def touches (k : Kind) (n : Key) : Op → Bool
+  | .reg k' n' _ => k' == k && n' == n
+  | .unreg k' ns => k' == k && ns.contains n
+  | _ => false
+
 /-- A merge of per-goroutine programs (the goroutines' own orders are kept). -/
 inductive Interleaving : List (List Op) → List Op → Prop
   | done : Interleaving [] []
@@ -253,6 +259,22 @@ def site (a : Access) : Text × Text := (a.fn, a.field)
 def unguardedSites : List Access → List (Text × Text)
   | [] => []
   | a :: t => if guarded a || (t.any fun b => !guarded b && site b == site a) then unguardedSites t else site a :: unguardedSites t
+
+/-- Finding D25 (open): the two request paths that index the map without taking the lock. -/
+def d25Sites : List (Text × Text) :=
+  [(t!"promptManager.handleGetPrompt", t!"prompts"), (t!"resourceManager.handleReadResource", t!"resources")]
+
+/-- The registry fields the property is about (owner type, field). -/
+def expectedFields : List (Text × Text) :=
+  [(t!"SSEServer", t!"notificationHandlers"), (t!"Server", t!"notificationHandlers"), (t!"StdioServer", t!"notificationHandlers"),
+   (t!"promptManager", t!"prompts"), (t!"promptManager", t!"promptsOrder"),
+   (t!"resourceManager", t!"resources"), (t!"resourceManager", t!"resourcesOrder"), (t!"resourceManager", t!"subscribers"),
+   (t!"resourceManager", t!"templates"), (t!"toolManager", t!"tools"), (t!"toolManager", t!"toolsOrder")]
+
+/-- The table has, for a field, a write under the write lock and a read under a lock (it is not empty or one-sided). -/
+def covered (tab : List Access) (f : Text × Text) : Bool :=
+  (tab.any fun a => a.type == f.1 && a.field == f.2 && a.acc == .write && a.held == .w) &&
+  (tab.any fun a => a.type == f.1 && a.field == f.2 && a.acc == .read && a.held != .none)
 
 end Mcp.Registry
 
